@@ -69,8 +69,9 @@ class ListV:
 
 
 class DictV:
-    def __init__(self, pairs=()):
+    def __init__(self, pairs=(), missing=None):
         self.pairs = [list(p) for p in pairs]
+        self.missing = missing          # what a missing key reads as: None (KeyError), a value (Counter: 0), ('factory', kind)
 
     def __repr__(self):
         return '{%s}' % ', '.join('%r: %r' % (k, v) for k, v in self.pairs)
@@ -146,7 +147,7 @@ def _deep(v, memo):
     if isinstance(v, DictV):
         if id(v) in memo:
             return memo[id(v)]
-        c = DictV()
+        c = DictV(missing=v.missing)
         memo[id(v)] = c
         c.pairs = [[_deep(k, memo), _deep(x, memo)] for k, x in v.pairs]
         return c
@@ -783,7 +784,7 @@ class SymEx:
             if r and r[0] == 'var':
                 if isinstance(r[2], ast.Constant):
                     return [(st, Const(r[2].value))]
-                if isinstance(r[2], (ast.Tuple, ast.List, ast.Dict, ast.Set, ast.Name, ast.BinOp, ast.JoinedStr)):
+                if isinstance(r[2], (ast.Tuple, ast.List, ast.Dict, ast.Set, ast.Name, ast.BinOp, ast.JoinedStr, ast.Call)):
                     return [(st, _deep(self.module_const(r[1], e.id, r[2]), {}))]
             if e.id in ('True', 'False', 'None'):
                 return [(st, Const({'True': True, 'False': False, 'None': None}[e.id]))]
@@ -892,7 +893,7 @@ class SymEx:
         if isinstance(e, (ast.ListComp, ast.GeneratorExp, ast.SetComp)) and len(e.generators) == 1:
             return self.comprehension(e, st, func)
         if isinstance(e, ast.Lambda):
-            return [(st, ('lambda', e, func))]
+            return [(st, ('lambda', e, func, dict(st.env)))]          # a closure over the defining frame
         if isinstance(e, ast.Starred):
             return self.ev(e.value, st, func)
         if isinstance(e, ast.Slice):
@@ -967,6 +968,13 @@ class SymEx:
                             undecided.append((k, v))
                     if hit is not None:
                         out.append((s3, hit))
+                    elif not undecided and b.missing is not None:
+                        if isinstance(b.missing, tuple):
+                            new = {'list': ListV([]), 'set': ListV([]), 'dict': DictV(), 'int': Const(0)}[b.missing[1]]
+                            b.pairs.append([i, new])
+                            out.append((s3, new))
+                        else:
+                            out.append((s3, b.missing))
                     elif undecided and all(isinstance(k, Const) for k, _ in b.pairs):
                         # a constant table indexed by a symbolic key: one path per key
                         for k, v in b.pairs:
@@ -1056,7 +1064,7 @@ class SymEx:
                 return Const(b[1].name)
         if isinstance(b, (ListV, DictV, Const)):
             return ('method', b, name)
-        if isinstance(b, Opaque) and b.text in ('itertools', 'functools', 'dict'):
+        if isinstance(b, Opaque) and b.text in ('itertools', 'functools', 'dict', 'collections'):
             return Opaque('%s.%s' % (b.text, name))
         if isinstance(b, Opaque) and b.text == 'itertools.chain' and name == 'from_iterable':
             return Opaque('itertools.chain.from_iterable')
@@ -1188,7 +1196,8 @@ class SymEx:
             return [(st, CallV(m.name, args, node=e))]
         if isinstance(f, tuple) and f[0] == 'lambda':
             lam, lf = f[1], f[2]
-            saved = dict(st.env)
+            saved = st.env
+            st.env = dict(f[3]) if len(f) > 3 else dict(st.env)
             for p, a in zip([x.arg for x in lam.args.args], args):
                 st.env[p] = a
             res = self.ev(lam.body, st, lf)
@@ -1205,6 +1214,23 @@ class SymEx:
                     flat.extend(self.as_sequence(x))
                 return [(st, ListV(flat))]
             return [(st, CallV('chain.from_iterable', args, node=e))]
+        if isinstance(f, Opaque) and f.text == 'collections.Counter' and (not args or self.as_sequence(args[0]) is not None):
+            d = DictV(missing=Const(0))
+            for k in (self.as_sequence(args[0]) if args else []):
+                for p in d.pairs:
+                    if values_equal(p[0], k) is True:
+                        p[1] = Const(p[1].v + 1)
+                        break
+                else:
+                    d.pairs.append([k, Const(1)])
+            return [(st, d)]
+        if isinstance(f, Opaque) and f.text in ('collections.defaultdict', 'collections.OrderedDict') and len(args) <= 1:
+            kind = None
+            if f.text == 'collections.defaultdict' and args:
+                kind = args[0].text if isinstance(args[0], Opaque) and args[0].text in ('list', 'dict', 'set', 'int') else None
+                if kind is None:
+                    return [(st, CallV('defaultdict', args, node=e))]
+            return [(st, DictV(missing=('factory', kind) if kind else None))]
         if isinstance(f, Opaque) and f.text == 'dict.fromkeys' and args and self.as_sequence(args[0]) is not None:
             d = DictV()
             for k in self.as_sequence(args[0]):
@@ -1317,6 +1343,30 @@ class SymEx:
                         if not any(values_equal(x, y) is True for y in recv.items):
                             recv.items.append(x)
                     return [(st, Const(None))]
+            if name in ('union', 'intersection', 'difference', 'symmetric_difference') and all(self.as_sequence(a) is not None for a in args):
+                def has(seq, x):
+                    return any(values_equal(x, y) is True for y in seq)
+                cur = list(recv.items)
+                for a in args:
+                    other = self.as_sequence(a)
+                    if name == 'union':
+                        cur = cur + [x for x in other if not has(cur, x)]
+                    elif name == 'intersection':
+                        cur = [x for x in cur if has(other, x)]
+                    elif name == 'difference':
+                        cur = [x for x in cur if not has(other, x)]
+                    else:
+                        cur = [x for x in cur if not has(other, x)] + [x for x in other if not has(cur, x)]
+                return [(st, ListV(cur))]
+            if name in ('issubset', 'issuperset', 'isdisjoint') and args and self.as_sequence(args[0]) is not None:
+                other = self.as_sequence(args[0])
+                def has(seq, x):
+                    return any(values_equal(x, y) is True for y in seq)
+                if name == 'issubset':
+                    return [(st, Const(all(has(other, x) for x in recv.items)))]
+                if name == 'issuperset':
+                    return [(st, Const(all(has(recv.items, x) for x in other)))]
+                return [(st, Const(not any(has(other, x) for x in recv.items)))]
             if name in ('discard', 'remove') and args:
                 recv.items[:] = [y for y in recv.items if values_equal(args[0], y) is not True]
                 return [(st, Const(None))]
